@@ -308,3 +308,39 @@ func RCompact(c *core.Ctx) {
 }
 
 var _ = types.Typ
+
+// R-REPID: with nothing to replace, Replace is the identity.
+func RRepID(c *core.Ctx) {
+	c.Rule("R-REPID", "no function of the Replace family (replace, replaceRunnerLTR, replaceRunnerRTL) returns a constant string together with a nil error: when there is nothing to substitute (count 0, no match) the result is the input itself, otherwise it is built from the input's text", 3)
+	p := c.P
+	n := 0
+	for _, fname := range []string{"replace", "replaceRunnerLTR", "replaceRunnerRTL"} {
+		fn := p.SSAFunc(p.LookupFunc("", fname))
+		if fn == nil {
+			c.Anchor("regexp2." + fname)
+			continue
+		}
+		name := core.SSAName(fn)
+		c.Visit(name)
+		cnt := 0
+		for _, b := range fn.Blocks {
+			ret, ok := b.Instrs[len(b.Instrs)-1].(*ssa.Return)
+			if !ok || len(ret.Results) != 2 || !core.IsNilConst(ret.Results[1]) {
+				continue
+			}
+			cnt++
+			n++
+			k, isConst := ret.Results[0].(*ssa.Const)
+			c.Check(!isConst, fmt.Sprintf("%s / successful return #%d hands back the input or text built from it", name, cnt), ret.Pos(),
+				"returns the constant %s with a nil error: replacing zero matches must give the input back unchanged", func() string {
+					if isConst {
+						return k.String()
+					}
+					return ""
+				}())
+		}
+	}
+	if n == 0 {
+		c.Anchor("successful returns of the Replace family")
+	}
+}
